@@ -152,6 +152,7 @@ def caps_semantics(caps: list[tuple[int, bytes]]) -> dict:
         'addpath': {},  # (afi,safi) -> bits (1 receive, 2 send), last instance wins per family inside one TLV, union across
         'ext_nh': [],
         'refresh': False,
+        'refresh_prestandard': False,
         'erefresh': False,
         'ext_msg': False,
         'gr': None,
@@ -192,8 +193,11 @@ def caps_semantics(caps: list[tuple[int, bytes]]) -> dict:
                     nh = r.u16()
                     if (afi, safi, nh) not in sem['ext_nh']:
                         sem['ext_nh'].append((afi, safi, nh))
-            elif code in (CAP_REFRESH, CAP_REFRESH_CISCO):
+            elif code == CAP_REFRESH:
                 sem['refresh'] = True
+            elif code == CAP_REFRESH_CISCO:
+                # pre-standard code point (deprecated, RFC 8810): it is not the RFC 2918 capability and negotiates nothing
+                sem['refresh_prestandard'] = True
             elif code == CAP_EREFRESH:
                 sem['erefresh'] = True
             elif code == CAP_EXT_MSG:
